@@ -4,9 +4,9 @@ CONSTANT MaxBanks = 1
 CONSTANT MaxSegs = 2
 CONSTANT Deviations = {}
 CONSTANT Base = 65530
-CONSTANT Starts = {"0", "1", "2", "4", "5", "prev", "prev1"}
+CONSTANT Starts = {"0", "1", "2", "4", "5", "7", "prev", "prev1"}
 CONSTANT Lens = {1, 2, 3}
-CONSTANT Sizes = {0, 6}
+CONSTANT Sizes = {99999, 6}
 INVARIANT Strict
 INVARIANT SameAsFunction
 INVARIANT MergePrefix
